@@ -491,22 +491,22 @@ func qualifiers(pre *refctx.Stack, op refctx.Op) string {
 // class names the situation of the transition: one word that separates the
 // families of histories that known defects live in.
 //
-//	uint64-wrap   the amount required does not fit: used+amount >= 2^64
 //	parent-stop   a stop level is set on a context that is not the running one
 //	dead-context  the running context is not live any more (killed earlier)
+//	uint64-wrap   (live context) the amount required does not fit: used+amount >= 2^64
 //	below-dead    the running context is live but was created below a context that was not
 //	live          none of the above
 func class(pre *refctx.Stack, op refctx.Op) string {
 	top := pre.Top()
-	if overflows(pre, op) {
-		return "uint64-wrap"
-	}
 	switch op.Kind {
 	case refctx.ParentSoft, refctx.ParentHard:
 		return "parent-stop"
 	}
 	if top.Status != refctx.Live {
 		return "dead-context"
+	}
+	if overflows(pre, op) {
+		return "uint64-wrap"
 	}
 	if top.AncDead || top.AncHard {
 		return "below-dead"
